@@ -171,6 +171,24 @@ func c01Round(nref, npeer, rounds int) {
 				v.Assert(mag <= refMax, "C01.bound.reference-only-within-reference-bound")
 			case nref == 0:
 				v.Assert(mag <= peerMax, "C01.bound.peers-only-within-peer-bound")
+				if npeer == 1 && r < 4 {
+					// one peer + the local clock: the peers' midpoint is half the peer's offset; within the
+					// cutoff it contributes nothing (every result arrives in this harness)
+					var x time.Duration
+					if c01ok[1][r][0] {
+						x = c01offs[1][r][0]
+					} else if r > 0 {
+						continue // a failed peer leaves the previous round's value in its slot
+					}
+					lo, hi := x, time.Duration(0)
+					if lo > hi {
+						lo, hi = hi, lo
+					}
+					peerOff := lo + (hi-lo)/2
+					if c01abs(peerOff) <= cfg.PeerClockCutoff {
+						v.Assert(corr == 0, "C01.bound.peer-within-cutoff-contributes-nothing")
+					}
+				}
 			default:
 				// both contribute: the midpoint of two values bounded by refMax and peerMax (or the reference
 				// value alone when the peers are within the cutoff) is bounded by the larger bound
@@ -247,3 +265,32 @@ func VerifC01Round_1_1x2() { c01Round(1, 1, 2) }
 func VerifC01Round_2_2()   { c01Round(2, 2, 2) }
 func VerifC01Round_3_2()   { c01Round(3, 2, 2) }
 func VerifC01Round_4_3()   { c01Round(4, 3, 3) }
+
+// the facts about int64 <-> float64 conversion that the C01 harnesses assume of the abstracted
+// conversions, discharged here with exact IEEE-754 semantics
+func VerifC01ConversionLemmas() {
+	x, y := v.Int64("x"), v.Int64("y")
+	if x <= y {
+		v.Assert(float64(x) <= float64(y), "C01.lemma.int-to-float-monotone")
+	}
+	v.Assert((x == 0) == (float64(x) == 0) && (x > 0) == (float64(x) > 0), "C01.lemma.int-to-float-sign")
+	f := v.Float64("f")
+	v.Assume(!math.IsNaN(f) && f > -9223372036854775808.0 && f < 9223372036854775808.0)
+	i := int64(f)
+	if f >= 0 {
+		v.Assert(i >= 0 && float64(i) <= f, "C01.lemma.float-of-truncation-not-above")
+	} else {
+		v.Assert(i <= 0 && float64(i) >= f, "C01.lemma.float-of-truncation-not-below")
+	}
+	// powers of two convert exactly in both directions
+	if x >= 1<<53 {
+		v.Assert(float64(x) >= 9007199254740992.0, "C01.lemma.ladder-int-to-float")
+	}
+	if f >= 9007199254740992.0 {
+		v.Assert(i >= 1<<53, "C01.lemma.ladder-float-to-int")
+	}
+	if f > -1 && f < 1 {
+		v.Assert(i == 0, "C01.lemma.small-truncates-to-zero")
+	}
+	v.Reach("C01.lemmas")
+}
